@@ -662,6 +662,8 @@ macro_rules! impl_const_elem_matrix {
         // every element takes at least one byte: a larger count cannot be honest, and a decoder
         // that consumes nothing per element would otherwise spin for the whole count
         assert!(rows.saturating_mul(cols) <= bytes.len(), "matrix dimensions exceed the available bytes");
+    // zero rows with billions of columns pass the product test and would still walk every column
+    assert!(rows != 0 && cols != 0, "Cannot create Matrix with zero rows or columns");
 
         // Read in column-major order
         for _c in 0..cols {
@@ -705,6 +707,8 @@ where
     // every element takes at least one byte: a larger count cannot be honest, and a decoder
     // that consumes nothing per element would otherwise spin for the whole count
     assert!(rows.saturating_mul(cols) <= bytes.len(), "matrix dimensions exceed the available bytes");
+    // zero rows with billions of columns pass the product test and would still walk every column
+    assert!(rows != 0 && cols != 0, "Cannot create Matrix with zero rows or columns");
     // Read in column-major order
     for _c in 0..cols {
       for _r in 0..rows {
@@ -743,6 +747,8 @@ where
     // every element takes at least one byte: a larger count cannot be honest, and a decoder
     // that consumes nothing per element would otherwise spin for the whole count
     assert!(rows.saturating_mul(cols) <= bytes.len(), "matrix dimensions exceed the available bytes");
+    // zero rows with billions of columns pass the product test and would still walk every column
+    assert!(rows != 0 && cols != 0, "Cannot create Matrix with zero rows or columns");
     // Read in column-major order
     for _c in 0..cols {
       for _r in 0..rows {
@@ -781,6 +787,8 @@ where
     // every element takes at least one byte: a larger count cannot be honest, and a decoder
     // that consumes nothing per element would otherwise spin for the whole count
     assert!(rows.saturating_mul(cols) <= bytes.len(), "matrix dimensions exceed the available bytes");
+    // zero rows with billions of columns pass the product test and would still walk every column
+    assert!(rows != 0 && cols != 0, "Cannot create Matrix with zero rows or columns");
     // Read in column-major order
     for _c in 0..cols {
       for _r in 0..rows {
@@ -869,6 +877,8 @@ where
     // every element takes at least one byte: a larger count cannot be honest, and a decoder
     // that consumes nothing per element would otherwise spin for the whole count
     assert!(rows.saturating_mul(cols) <= bytes.len(), "matrix dimensions exceed the available bytes");
+    // zero rows with billions of columns pass the product test and would still walk every column
+    assert!(rows != 0 && cols != 0, "Cannot create Matrix with zero rows or columns");
     // Read in column-major order
     for _c in 0..cols {
       for _r in 0..rows {
